@@ -121,7 +121,7 @@ def cmp_sections(e, path):
 def cmp_segments(e, path):
     out, _ = readelf('-l', path)
     rx = re.compile(r'^  (\S+)\s+0x([0-9a-f]+) 0x([0-9a-f]+) 0x([0-9a-f]+) 0x([0-9a-f]+) '
-                    r'0x([0-9a-f]+) ([R ][W ][E ]) 0x([0-9a-f]+)$')
+                    r'0x([0-9a-f]+) ([R ][W ][E ]) (?:0x)?([0-9a-f]+)$')
     rows = [m for m in map(rx.match, out.splitlines()) if m]
     eq(len(e.segments), len(rows), path + ' number of segments')
     for p, m in zip(e.segments, rows):
@@ -173,9 +173,11 @@ def cmp_symbols(e, path):
                 continue    # readelf shows the section's name for unnamed section symbols
             if which == '.dynsym':
                 name = re.sub(r' \(\d+\)$', '', name)
-                if s.version is None:
-                    mine = s.name
-                elif s.version_hidden or s.shndx == 0:
+                vidx = e.versym()[s.index] & 0x7fff if e.versym() else 0
+                from_def = vidx in {d[0] for d in e.verdefs()}
+                if s.version is None or (s.shndx == 0xfff1 and s.name == s.version):
+                    mine = s.name     # readelf omits the version of a version-definition symbol
+                elif s.version_hidden or s.shndx == 0 or not from_def:
                     mine = '%s@%s' % (s.name, s.version)
                 else:
                     mine = '%s@@%s' % (s.name, s.version)
@@ -187,7 +189,7 @@ def cmp_symbols(e, path):
 
 def cmp_dynamic(e, path):
     out, _ = readelf('-d', path)
-    rows = re.findall(r'^ 0x([0-9a-f]{16}) \((\w+)\)\s+(.*)$', out, re.M)
+    rows = re.findall(r'^ 0x([0-9a-f]{16}) \((\w+)\)[ \t]*(.*)$', out, re.M)
     rows = [(int(t, 16), n, v.strip()) for t, n, v in rows]
     if rows and rows[-1][0] == 0:
         while rows and rows[-1][0] == 0:
@@ -420,10 +422,13 @@ def cmp_hash(e, path):
             if s.shndx == 0 and s.name and s.name not in {d.name for d in defined}:
                 eq(lookup(s.name), None, '%s %s_lookup of undefined %r' % (path, label, s.name))
     if g is not None:
-        eq(g.symoffset + len(g.chains), len(dyn), path + ' gnu hash chain count vs dynsym size')
+        if g.chains:
+            eq(g.symoffset + len(g.chains), len(dyn), path + ' gnu hash chain count vs dynsym size')
+        else:    # nothing hashed: symoffset is only a lower bound (GNU ld writes 1, lld the count)
+            check(g.symoffset <= len(dyn) and not any(g.buckets), path + ' empty gnu hash')
         eq(len(g.bloom), g.bloom_size, path + ' bloom size')
         eq(len(g.buckets), g.nbuckets, path + ' bucket count')
-        for s in dyn[g.symoffset:]:
+        for s in dyn[g.symoffset:] if g.chains else []:
             h = E.dl_new_hash(s.name)
             eq(g.chains[s.index - g.symoffset] | 1, h | 1, '%s gnu chain value of %r' % (path, s.name))
             word = g.bloom[(h // 64) % g.bloom_size]
@@ -611,3 +616,574 @@ def full_compare(path, hexdump=('.rodata', '.text', '.dynstr', '.data', '.eh_fra
     eq(e.pointer_array('.no.such'), [], path + ' pointer_array of absent section')
     print('  %-14s %s' % (path, ' '.join('%s=%s' % kv for kv in stats.items())))
     return e, stats
+
+
+# ------------------------------------------------------------------------------- part (a)
+SRC_HELLO = r'''
+#include <stdio.h>
+int g = 3; int *p = &g; __thread int t = 4; static int zeros[1000];
+__attribute__((constructor)) static void ctor(void) { g++; }
+__attribute__((destructor)) static void dtor(void) { g--; }
+int main(int argc, char **argv) { printf("%d %d %d\n", *p, t, zeros[argc]); return 0; }
+'''
+SRC_CXX = r'''
+#include <stdexcept>
+#include <string>
+#include <cstdio>
+struct D { ~D() { std::puts("d"); } };
+template <class T> inline T twice(T v) { return v + v; }
+int thrower(int x) { D d; if (x > 1) throw std::runtime_error("boom"); return twice(x); }
+int main(int argc, char **) {
+  try { return thrower(argc); } catch (const std::exception &e) { std::puts(e.what()); }
+  try { D d; throw std::string("s"); } catch (...) { return twice(2); }
+  return 0;
+}
+'''
+SRC_V = r'''
+__asm__(".symver foo_v1,foo@V1");
+__asm__(".symver foo_v2,foo@@V2");
+int foo_v1(void) { return 1; }
+int foo_v2(void) { return 2; }
+int bar(void) { return 3; }
+int baz = 7;
+__thread int tv = 5;
+static int hid(void) { return baz; }
+int localsym(void) { return hid(); }
+int newer(void) { return tv + localsym(); }
+int unversioned_ref(void);
+int weakref(void) __attribute__((weak));
+int caller(void) { return weakref ? weakref() : 0; }
+'''
+MAP_V = 'V1 { global: foo; bar; local: *; };\nV2 { global: baz; tv; newer; caller; } V1;\n'
+SRC_USEV = r'''
+extern int foo(void), bar(void), newer(void); extern int baz;
+int exported_from_exe = 1;
+int main(void) { return foo() + bar() + baz + newer() == 0; }
+'''
+SRC_RELR = r'''
+int a, b, c; char odd;
+struct S { int *p; long n; };
+struct S arr[150] = { [0 ... 149] = { &a, 1 } };
+int *dense[200] = { [0 ... 199] = &b };
+int *sparse[300] = { [3] = &c, [70] = &c, [71] = &c, [200] = &a, [299] = &b };
+void *fp = (void *)&arr;
+int main(void) { return arr[3].p == dense[5] || sparse[3] == fp; }
+'''
+SRC_A64 = r'''
+int counter = 5; int *ptrs[40] = { [0 ... 39] = &counter }; __thread int tl = 1;
+extern int ext(int);
+static int helper(int x) { return x * 3 + tl; }
+int fn(int x) { return helper(x) + *ptrs[x & 31] + ext(x); }
+int (*fnp)(int) = fn;
+void other(void) { counter++; }
+'''
+
+
+def build_inputs():
+    w = write
+    w('hello.c', SRC_HELLO), w('cxx.cc', SRC_CXX), w('v.c', SRC_V), w('v.map', MAP_V)
+    w('usev.c', SRC_USEV), w('relr.c', SRC_RELR), w('a64.c', SRC_A64)
+    both = '-Wl,--hash-style=both'
+    jobs = [
+        ('hello.static', ['gcc', '-O1', '-static', 'hello.c', '-o', 'hello.static']),
+        ('hello.nopie', ['gcc', '-O1', '-no-pie', 'hello.c', '-o', 'hello.nopie', both]),
+        ('hello.pie', ['gcc', '-O1', '-pie', '-fPIE', 'hello.c', '-o', 'hello.pie', both,
+                       '-Wl,-z,now']),
+        ('hello.spie', ['gcc', '-O1', '-static-pie', 'hello.c', '-o', 'hello.spie', both]),
+        ('cxx.pie', ['g++', '-O1', 'cxx.cc', '-o', 'cxx.pie', both]),
+        ('cxx.o', ['g++', '-O1', '-c', 'cxx.cc', '-o', 'cxx.o']),
+        ('libv.so', ['gcc', '-O1', '-shared', '-fPIC', 'v.c', '-o', 'libv.so',
+                     '-Wl,--version-script=v.map', '-Wl,-soname,libv.so.1', both,
+                     '-Wl,-rpath,/opt/x:$ORIGIN', '-Wl,--enable-new-dtags']),
+        ('usev.sysv', ['gcc', '-O1', 'usev.c', './libv.so', '-o', 'usev.sysv',
+                       '-Wl,--hash-style=sysv', '-rdynamic', '-Wl,--disable-new-dtags',
+                       '-Wl,-rpath,/opt/y']),
+        ('usev.gnu', ['gcc', '-O1', 'usev.c', './libv.so', '-o', 'usev.gnu',
+                      '-Wl,--hash-style=gnu', '-rdynamic']),
+        ('relr.ld', ['gcc', '-O1', 'relr.c', '-o', 'relr.ld', '-Wl,-z,pack-relative-relocs', both]),
+        ('relr.lld', ['gcc', '-O1', 'relr.c', '-o', 'relr.lld', '-fuse-ld=lld',
+                      '-Wl,--pack-dyn-relocs=relr', both]),
+        ('librelr.so', ['gcc', '-O1', '-shared', '-fPIC', 'relr.c', '-o', 'librelr.so',
+                        '-Wl,-z,pack-relative-relocs']),
+        ('a64.o', ['clang', '--target=aarch64-linux-gnu', '-O1', '-fPIC', '-c', 'a64.c',
+                   '-mbranch-protection=standard', '-o', 'a64.o']),
+        ('liba64.so', ['ld.lld', '-shared', 'a64.o', '-o', 'liba64.so', '--hash-style=both',
+                       '--pack-dyn-relocs=relr', '--eh-frame-hdr', '-z', 'now', '-soname', 'liba64.so',
+                       '--build-id']),
+    ]
+    built, skipped = [], []
+    for name, cmd in jobs:
+        _o, err, rc = sh(cmd, ok=None)
+        if rc == 0:
+            built.append(name)
+        else:
+            skipped.append((name, err.strip().splitlines()[-1][:160] if err.strip() else 'rc=%d' % rc))
+    return built, skipped
+
+
+def part_a():
+    print('== part (a): elfread vs readelf ==')
+    built, skipped = build_inputs()
+    for name, why in skipped:
+        print('  SKIPPED build of %s: %s' % (name, why))
+    required = {'hello.static', 'hello.pie', 'libv.so', 'cxx.pie', 'cxx.o', 'a64.o', 'usev.sysv',
+                'usev.gnu'}
+    check(required <= set(built), 'required inputs not built: %r' % sorted(required - set(built)))
+    ld_relr = '-z pack-relative-relocs' in sh(['ld', '--help'])[0]
+    if ld_relr:
+        check('relr.ld' in built, 'ld supports pack-relative-relocs but relr.ld was not built')
+    agg = {}
+    for name in built:
+        # gcc passes --eh-frame-hdr only to dynamic links
+        e, stats = full_compare(name, need_hdr=not name.endswith('.o') and name != 'hello.static')
+        for k, v in stats.items():
+            agg[k] = agg.get(k, 0) + v
+        agg.setdefault('files', []).append(name)
+    # expectations that make sure the interesting paths were really exercised
+    e = E.Elf(os.path.join(WORK, 'libv.so'))
+    eq(e.soname(), 'libv.so.1', 'libv.so soname')
+    eq(e.runpath(), '/opt/x:$ORIGIN', 'libv.so runpath')
+    eq([(i, f, n, p) for i, f, n, p in e.verdefs()],
+       [(1, 1, 'libv.so.1', []), (2, 0, 'V1', []), (3, 0, 'V2', ['V1'])], 'libv.so verdefs')
+    vers = {(s.name, s.version, s.version_hidden) for s in e.symbols('.dynsym') if s.shndx}
+    eq(vers, {('foo', 'V1', True), ('foo', 'V2', False), ('bar', 'V1', False), ('baz', 'V2', False),
+              ('tv', 'V2', False), ('newer', 'V2', False), ('caller', 'V2', False),
+              ('V1', 'V1', False), ('V2', 'V2', False)}, 'libv.so defined dynamic symbols')
+    e = E.Elf(os.path.join(WORK, 'usev.sysv'))
+    eq(e.gnu_hash(), None, 'usev.sysv has no gnu hash')
+    eq(e.rpath(), '/opt/y', 'usev.sysv rpath')
+    eq(e.needed()[0], 'libv.so.1', 'usev.sysv first DT_NEEDED')
+    need = dict(e.verneeds())
+    eq(sorted(n for _i, n, _f in need.get('libv.so.1', [])), ['V1', 'V2'], 'usev.sysv verneed libv')
+    eq({s.version for s in e.symbols('.dynsym') if s.name in ('foo', 'newer')}, {'V2'},
+       'usev.sysv versions of foo/newer')
+    eq(E.Elf(os.path.join(WORK, 'usev.gnu')).sysv_hash(), None, 'usev.gnu has no sysv hash')
+    e = E.Elf(os.path.join(WORK, 'cxx.pie'))
+    check(any(isinstance(r, E.CIE) and r.augmentation == 'zPLR' and r.personality
+              for r in e.eh_frame()), 'cxx.pie has a zPLR CIE with personality')
+    check(sum(1 for r in e.eh_frame() if isinstance(r, E.FDE) and r.lsda) >= 2, 'cxx.pie LSDAs')
+    e = E.Elf(os.path.join(WORK, 'cxx.o'))
+    check(len(e.sections_named('.group')) >= 2, 'cxx.o has several .group sections')
+    check(len([r for r in e.eh_frame() if isinstance(r, E.FDE)]) >= 2, 'cxx.o FDEs parsed')
+    e = E.Elf(os.path.join(WORK, 'a64.o'))
+    eq(e.e_machine, E.EM_AARCH64, 'a64.o machine')
+    check({'R_AARCH64_ADR_GOT_PAGE', 'R_AARCH64_LD64_GOT_LO12_NC', 'R_AARCH64_ABS64'} <=
+          {E.R_AARCH64.get(r.type) for r in e.relocations()}, 'a64.o relocation types')
+    check(agg.get('relr', 0) > 300, 'RELR decoding exercised (%d addresses)' % agg.get('relr', 0))
+    check(agg.get('lookups', 0) > 50, 'hash lookups exercised')
+    check(agg.get('hdr_entries', 0) > 50, 'eh_frame_hdr entries exercised')
+    check(agg.get('hexdumps', 0) > 20, 'hex dumps compared')
+    # malformed inputs raise ElfError, nothing else
+    good = open(os.path.join(WORK, 'hello.pie'), 'rb').read()
+    bads = {'empty': b'', 'short': good[:40], 'magic': b'\x7fELG' + good[4:],
+            'class32': good[:4] + b'\x01' + good[5:], 'big-endian': good[:5] + b'\x02' + good[6:],
+            'truncated-shdrs': good[:-100], 'truncated-phdrs': good[:100]}
+    for label, data in bads.items():
+        try:
+            E.Elf(data=data)
+            check(False, 'malformed input %s was accepted' % label)
+        except E.ElfError:
+            check(True, '')
+    agg['files'] = len(agg['files'])
+    return agg
+
+
+# ------------------------------------------------------------------------------- part (b)
+def exercise(e):
+    """Call every elfread accessor; returns the number of calls that raised ElfError. Any other
+    exception propagates (that is the failure being tested for)."""
+    calls = [lambda: [s.data for s in e.sections], lambda: [p.data for p in e.segments],
+             e.symbols, lambda: e.symbols('.dynsym'), e.relocations, e.dynamic, e.needed, e.soname,
+             e.runpath, e.dyn_relocs, e.relr_raw, e.gnu_hash, e.sysv_hash, e.verdefs, e.verneeds,
+             e.versym, e.notes, e.gnu_properties, e.build_id, e.eh_frame, e.eh_frame_hdr,
+             lambda: e.pointer_array('.init_array'), lambda: e.gnu_lookup('foo'),
+             lambda: e.sysv_lookup('foo'), lambda: e.gnu_lookup('absent'),
+             lambda: e.sysv_lookup('absent'), e.interp]
+    n = 0
+    for c in calls:
+        try:
+            c()
+        except E.ElfError:
+            n += 1
+    return n
+
+
+def mutate_all(data, ranges, label):
+    """Every (offset, size) field in ranges x a fixed set of replacement values."""
+    evals = rejected = 0
+    for off, size in ranges:
+        old = int.from_bytes(data[off:off + size], 'little')
+        top = (1 << 8 * size) - 1
+        news = {0, top, (old + 1) & top, (old - 1) & top, old ^ (1 << 8 * size - 1)}
+        if size > 1:
+            news |= {1, top >> 1, (old << 8 | 0xff) & top, 0x41414141 & top}
+        for new in news - {old}:
+            m = bytearray(data)
+            m[off:off + size] = new.to_bytes(size, 'little')
+            evals += 1
+            try:
+                x = E.Elf(data=bytes(m))
+                rejected += 1 if exercise(x) else 0
+            except E.ElfError:
+                rejected += 1
+            except Exception as ex:   # noqa: BLE001
+                check(False, '%s: mutation %#x:%d=%#x raised %s: %s'
+                      % (label, off, size, new, type(ex).__name__, ex))
+    return evals, rejected
+
+
+def readelf_clean(path, what):
+    out, err, rc = sh(['readelf', '-a', '-W', path], ok=None)
+    bad = [l for l in (out + err).splitlines() if re.search(r'warning|error|corrupt|bad ', l, re.I)]
+    check(rc == 0 and not err.strip() and not bad,
+          '%s: readelf -a not clean: rc=%d %r %r' % (what, rc, err[:300], bad[:3]))
+
+
+def link_and_run(objs, out, linker, expect_rc=None, extra=()):
+    _o, err, rc = sh([linker, *objs, '-o', out, *extra], ok=None)
+    if not check(rc == 0, '%s failed on %s: %s' % (linker, objs, err[:300])):
+        return None
+    if expect_rc is not None:
+        p = subprocess.run([os.path.join(WORK, out)], cwd=WORK)
+        eq(p.returncode, expect_rc, '%s-linked %s exit status' % (linker, out))
+    return E.Elf(os.path.join(WORK, out))
+
+
+def gen_exit42():
+    """_start: edi = abs40 (R_X86_64_32 against an SHN_ABS symbol) + [common] + [val] ; exit."""
+    o = G.ElfObject('x86_64')
+    code = bytes.fromhex('bf00000000' '033d00000000' '033d00000000' 'b83c000000' '0f05')
+    t = o.section('.text.start', flags=G.SHF_ALLOC | G.SHF_EXECINSTR, align=16, data=code)
+    d = o.section('.data.val', flags=G.SHF_ALLOC | G.SHF_WRITE, align=4,
+                  data=struct.pack('<I', 2))
+    bss = o.section('.bss.z', type=G.SHT_NOBITS, flags=G.SHF_ALLOC | G.SHF_WRITE, align=32,
+                    size=64)
+    o.symbol('file.c', section='abs', bind=G.STB_LOCAL, type=G.STT_FILE)
+    start = o.symbol('_start', section=t, size=len(code), type=G.STT_FUNC)
+    val = o.symbol('val', section=d, size=4, bind=G.STB_LOCAL, type=G.STT_OBJECT)
+    abs40 = o.symbol('abs40', section='abs', value=40)
+    com = o.symbol('com', section='common', value=8, size=8, type=G.STT_OBJECT)
+    o.symbol('hid', section=bss, value=4, size=4, vis=G.STV_HIDDEN, type=G.STT_OBJECT)
+    weak = o.symbol('weak_undef', bind=G.STB_WEAK)
+    o.reloc(t, 1, 10, abs40, 0)          # R_X86_64_32
+    o.reloc(t, 7, 2, com, -4)            # R_X86_64_PC32
+    o.reloc(t, 13, 2, val, -4)
+    o.reloc(d, 0, 0, weak, 0)            # R_X86_64_NONE against an undefined weak
+    o.note_gnu_stack()
+    o.gnu_property([(G.GNU_PROPERTY_X86_FEATURE_1_AND, struct.pack('<I', 3))])
+    g1 = o.section('.text.grp', flags=G.SHF_ALLOC | G.SHF_EXECINSTR, align=1, data=b'\xc3')
+    gs = o.symbol('grpfn', section=g1, size=1, bind=G.STB_WEAK, type=G.STT_FUNC)
+    o.reloc(g1, 0, 0, o.section_symbol(d), 0)
+    o.group(gs, [g1])
+    ia = o.section('.init_array', type=G.SHT_INIT_ARRAY, flags=G.SHF_ALLOC | G.SHF_WRITE, align=8,
+                   data=bytes(8), entsize=8)
+    o.reloc(ia, 0, 1, start, 0)          # R_X86_64_64
+    return o, dict(t=t, d=d, bss=bss, start=start, val=val, g1=g1, ia=ia)
+
+
+def part_b():
+    print('== part (b): elfgen ==')
+    stats = {}
+    o, h = gen_exit42()
+    data, fmap = o.to_bytes_with_map()
+    o.write(os.path.join(WORK, 'gen42.o'))
+    eq(open(os.path.join(WORK, 'gen42.o'), 'rb').read(), data, 'write() == to_bytes()')
+    eq(o.to_bytes(), data, 'to_bytes() is deterministic')
+    readelf_clean('gen42.o', 'gen42.o')
+    e, _ = full_compare('gen42.o', need_hdr=False)
+    # read-back of what was specified
+    names = [s.name for s in e.sections]
+    eq(names, ['', '.group', '.text.start', '.data.val', '.bss.z', '.rela.text.start',
+               '.rela.data.val', '.note.GNU-stack', '.note.gnu.property', '.text.grp',
+               '.rela.text.grp', '.init_array', '.rela.init_array', '.symtab', '.strtab',
+               '.shstrtab'], 'gen42.o section order')
+    syms = e.symbols()
+    nlocal = e.section('.symtab').sh_info
+    check(all(s.bind == 0 for s in syms[:nlocal]) and all(s.bind != 0 for s in syms[nlocal:]),
+          'gen42.o locals precede globals, sh_info is the first non-local')
+    eq([s.name for s in syms], ['', 'file.c', 'val', '', '_start', 'abs40', 'com', 'hid',
+                                'weak_undef', 'grpfn'], 'gen42.o symbol order')
+    by = {s.name: s for s in syms}
+    eq((by['com'].shndx, by['com'].value, by['abs40'].shndx, by['abs40'].value, by['hid'].visibility,
+        by['weak_undef'].shndx, by['weak_undef'].bind), (0xfff2, 8, 0xfff1, 40, 2, 0, 2),
+       'gen42.o special symbols')
+    eq([(r.section_name, r.offset, r.type, r.sym_name, r.addend) for r in e.relocations()],
+       [('.rela.text.start', 1, 10, 'abs40', 0), ('.rela.text.start', 7, 2, 'com', -4),
+        ('.rela.text.start', 13, 2, 'val', -4), ('.rela.data.val', 0, 0, 'weak_undef', 0),
+        ('.rela.text.grp', 0, 0, '.data.val', 0), ('.rela.init_array', 0, 1, '_start', 0)],
+       'gen42.o relocations')
+    grp = e.section('.group')
+    eq(struct.unpack('<3I', grp.data), (1, e.section('.text.grp').index,
+                                        e.section('.rela.text.grp').index), 'gen42.o group body')
+    eq((grp.sh_link, grp.sh_info), (e.section('.symtab').index, by['grpfn'].index), 'group link/info')
+    check(e.section('.text.grp').sh_flags & E.SHF_GROUP and
+          e.section('.rela.text.grp').sh_flags & E.SHF_GROUP, 'SHF_GROUP on members')
+    eq(e.gnu_properties(), [(0xc0000002, struct.pack('<I', 3))], 'gen42.o gnu property')
+    eq((h['t'].index, h['start'].index), (e.section('.text.start').index, by['_start'].index),
+       'Sec.index / Sym.index after layout')
+    for linker in ('ld', 'ld.lld'):
+        x = link_and_run(['gen42.o'], 'gen42.' + linker, linker, 42)
+        if x is not None:
+            full_compare('gen42.' + linker, need_hdr=False)
+            st = {s.name: s for s in x.symbols()}
+            eq(x.pointer_array('.init_array'), [st['_start'].value], linker + ' init_array reloc')
+            eq(x.e_entry, st['_start'].value, linker + ' entry')
+            eq(x.read_u32(st['_start'].value + 1), 40, linker + ' R_X86_64_32 of abs symbol')
+    # field map: complete and consistent with what elfread sees
+    secs = e.sections
+    exp_keys = {('ehdr', f) for f, _ in G.EHDR_FIELDS}
+    exp_keys |= {('shdr', s.index, f) for s in secs for f, _ in G.SHDR_FIELDS}
+    exp_keys |= {('sym', s.index, f) for s in syms for f, _ in G.SYM_FIELDS}
+    for s in secs:
+        if s.sh_type == E.SHT_RELA:
+            exp_keys |= {('rela', s.index, k, f) for k in range(s.sh_size // 24)
+                         for f, _ in G.RELA_FIELDS}
+        if s.sh_type == E.SHT_GROUP:
+            exp_keys |= {('group', s.index, k) for k in range(s.sh_size // 4)}
+    eq(set(fmap), exp_keys, 'field map key set')
+    covered = bytearray(len(data))
+    for (off, size) in fmap.values():
+        check(not any(covered[off:off + size]), 'field map ranges overlap at %#x' % off)
+        covered[off:off + size] = b'\1' * size
+    structural = [(0, 64), (e.e_shoff, 64 * e.e_shnum)] + \
+        [(s.sh_offset, s.sh_size) for s in secs if s.sh_type in (E.SHT_SYMTAB, E.SHT_RELA,
+                                                                   E.SHT_GROUP)]
+    eq(sum(covered), sum(n for _, n in structural), 'field map covers exactly the structures')
+    check(all(all(covered[o:o + n]) for o, n in structural), 'field map covers every structure byte')
+    fld = lambda key: int.from_bytes(data[fmap[key][0]:fmap[key][0] + fmap[key][1]], 'little')  # noqa
+    for s in secs:
+        for f, _ in G.SHDR_FIELDS:
+            eq(fld(('shdr', s.index, f)), getattr(s, f), 'fmap shdr %d %s' % (s.index, f))
+    for s in syms:
+        eq((fld(('sym', s.index, 'st_value')), fld(('sym', s.index, 'st_size')),
+            fld(('sym', s.index, 'st_shndx')), fld(('sym', s.index, 'st_info')),
+            fld(('sym', s.index, 'st_other'))),
+           (s.value, s.size, s.shndx, s.bind << 4 | s.type, s.other), 'fmap sym %d' % s.index)
+    for f in ('e_type', 'e_machine', 'e_shoff', 'e_flags', 'e_shentsize', 'e_shnum', 'e_shstrndx'):
+        eq(fld(('ehdr', f)), getattr(e, f), 'fmap ehdr ' + f)
+    rs = e.section('.rela.text.start')
+    eq(fld(('rela', rs.index, 1, 'r_info')), by['com'].index << 32 | 2, 'fmap rela r_info')
+    stats['fmap_fields'] = len(fmap)
+    # patches
+    o.patch_section_header(h['t'], 'sh_size', 0xffffffff)
+    o.patch_symbol(h['val'], 'st_value', 0x1234)
+    o.patch_rela(h['t'], 0, 'r_info', 0xdeadbeef)
+    o.patch_ehdr('e_flags', 7)
+    o.patch(('group', h['g1'].index - h['g1'].index + 1, 0), 0)   # group flags word of section 1
+    p = E.Elf(data=o.to_bytes())
+    eq((p.section('.text.start').sh_size, p.symbols()[by['val'].index].value, p.e_flags,
+        struct.unpack('<I', p.section('.group').data[:4])[0]), (0xffffffff, 0x1234, 7, 0), 'patches')
+    try:
+        p.section('.text.start').data
+        check(False, 'oversized sh_size must raise ElfError')
+    except E.ElfError:
+        check(True, '')
+    r0 = p.relocations()[0]
+    eq((r0.type, r0.sym_index), (0xdeadbeef, 0), 'patched r_info')
+    o.patches.clear()
+    eq(o.to_bytes(), data, 'clearing patches restores the original bytes')
+    # C22-style mutation of every structural field: elfread must only ever raise ElfError
+    ev, rej = mutate_all(data, sorted(set(fmap.values())), 'gen42.o')
+    stats['obj_mutations'], stats['obj_rejected'] = ev, rej
+    check(rej > 50, 'object mutations: some must be rejected with ElfError (%d)' % rej)
+    so = open(os.path.join(WORK, 'libv.so'), 'rb').read()
+    v = E.Elf(data=so)
+    regions = [(0, 64), (v.e_phoff, 56 * v.e_phnum), (v.e_shoff, 64 * v.e_shnum)]
+    regions += [(s.sh_offset, s.sh_size) for s in v.sections if s.sh_flags & 2 and s.sh_type not in
+                (E.SHT_NOBITS, E.SHT_PROGBITS, E.SHT_INIT_ARRAY, E.SHT_FINI_ARRAY)]
+    regions += [(s.sh_offset, s.sh_size) for s in v.sections
+                if s.name in ('.eh_frame', '.eh_frame_hdr', '.symtab')]
+    cells = sorted({(o_ + i, 1) for o_, n in regions for i in range(n)})
+    cells += sorted({(o_ + i, 4) for o_, n in regions for i in range(0, n - 3, 4)})
+    ev, rej = mutate_all(so, cells, 'libv.so')
+    stats['so_mutations'], stats['so_rejected'] = ev, rej
+
+    # arbitrary relocation type / odd flags and alignment: readable, and linkers fail cleanly
+    o2 = G.ElfObject('x86_64')
+    t2 = o2.section('.text', flags=G.SHF_ALLOC | G.SHF_EXECINSTR, align=16, data=bytes(16))
+    o2.symbol('_start', section=t2)
+    o2.reloc(t2, 4, 0x7fffffff, o2.symbol('undef_sym'), 1 << 62)
+    o2.section('.odd', flags=G.SHF_ALLOC | 0x0ff00000, align=3, data=b'abc', entsize=7)
+    o2.write(os.path.join(WORK, 'odd.o'))
+    e2 = E.Elf(os.path.join(WORK, 'odd.o'))
+    r = e2.relocations()[0]
+    eq((r.type, r.sym_name, r.addend), (0x7fffffff, 'undef_sym', 1 << 62), 'odd.o relocation')
+    eq((e2.section('.odd').sh_addralign, e2.section('.odd').sh_entsize,
+        e2.section('.odd').sh_flags), (3, 7, 2 | 0x0ff00000), 'odd.o section header')
+    for linker in ('ld', 'ld.lld'):
+        _o, err, rc = sh([linker, 'odd.o', '-o', 'odd.out'], ok=None)
+        check(rc == 1, '%s on an unknown relocation type: rc=%d (%s)' % (linker, rc, err[:200]))
+
+    # aarch64 object: links with ld.lld, relocations applied as specified
+    a = G.ElfObject('aarch64')
+    insns = [0xd2800000, 0xd2800ba8, 0xd4000001]      # mov x0,#0 ; mov x8,#93 ; svc #0
+    ta = a.section('.text', flags=G.SHF_ALLOC | G.SHF_EXECINSTR, align=4,
+                   data=struct.pack('<3I', *insns))
+    da = a.section('.data', flags=G.SHF_ALLOC | G.SHF_WRITE, align=8, data=bytes(16))
+    sa = a.symbol('_start', section=ta, size=12, type=G.STT_FUNC)
+    a.symbol('$x', section=ta, bind=G.STB_LOCAL)
+    a.reloc(da, 0, 257, sa, 4)                         # R_AARCH64_ABS64
+    a.reloc(da, 8, 261, a.section_symbol(da), 8)       # R_AARCH64_PREL32: S+A-P = 0
+    a.note_gnu_stack()
+    a.gnu_property([(G.GNU_PROPERTY_AARCH64_FEATURE_1_AND, struct.pack('<I', 1))])
+    a.write(os.path.join(WORK, 'gena64.o'))
+    readelf_clean('gena64.o', 'gena64.o')
+    full_compare('gena64.o', need_hdr=False)
+    x = link_and_run(['gena64.o'], 'gena64.out', 'ld.lld', extra=('--no-gc-sections',))
+    if x is not None:
+        full_compare('gena64.out', need_hdr=False)
+        st = {s.name: s for s in x.symbols()}
+        d_addr = x.section('.data').sh_addr
+        eq(x.read_u64(d_addr), st['_start'].value + 4, 'aarch64 ABS64 applied')
+        eq(x.read_u32(d_addr + 8), 0, 'aarch64 PREL32 applied')
+        eq(x.read_vaddr(st['_start'].value, 12), struct.pack('<3I', *insns), 'aarch64 code bytes')
+
+    # extended section numbering (>= SHN_LORESERVE sections, SHN_XINDEX symbols)
+    big = G.ElfObject('x86_64')
+    for i in range(0xff10):
+        big.section('.d%d' % i, flags=G.SHF_ALLOC, align=1, data=b'\0')
+    code = bytes.fromhex('bf2b000000' 'b83c000000' '0f05')        # exit(43)
+    tb = big.section('.text.hi', flags=G.SHF_ALLOC | G.SHF_EXECINSTR, align=16, data=code)
+    big.symbol('_start', section=tb, size=len(code), type=G.STT_FUNC)
+    big.symbol('lo', section=big.sections[0], bind=G.STB_LOCAL)
+    big.write(os.path.join(WORK, 'big.o'))
+    eb = E.Elf(os.path.join(WORK, 'big.o'))
+    cmp_header(eb, 'big.o')
+    eq((eb.e_shnum_raw, eb.e_shstrndx_raw, eb.e_shnum), (0, 0xffff, 0xff10 + 6), 'big.o numbering')
+    cmp_symbols(eb, 'big.o')
+    sb = {s.name: s for s in eb.symbols()}
+    eq(eb.sections[sb['_start'].shndx].name, '.text.hi', 'big.o SHN_XINDEX symbol resolves')
+    eq(eb.sections[sb['lo'].shndx].name, '.d0', 'big.o low symbol')
+    _o, err, _rc = sh(['readelf', '-W', '-h', '-s', 'big.o'])
+    check(not err.strip(), 'readelf on big.o: ' + err[:200])
+    for linker in ('ld', 'ld.lld'):
+        link_and_run(['big.o'], 'big.' + linker, linker, 43)
+    stats['big_sections'] = eb.e_shnum
+    return stats
+
+
+# ------------------------------------------------------------------------------- unit vectors
+def enc_uleb(v):
+    out = bytearray()
+    while True:
+        b, v = v & 0x7f, v >> 7
+        out.append(b | (0x80 if v else 0))
+        if not v:
+            return bytes(out)
+
+
+def enc_sleb(v):
+    out = bytearray()
+    while True:
+        b, v = v & 0x7f, v >> 7
+        done = (v == 0 and not b & 0x40) or (v == -1 and b & 0x40)
+        out.append(b | (0 if done else 0x80))
+        if done:
+            return bytes(out)
+
+
+def enc_crel(relocs, has_addend, shift):
+    """Encoder written from the CREL proposal (independent of elfread.decode_crel)."""
+    out = bytearray(enc_uleb(len(relocs) * 8 + (4 if has_addend else 0) + shift))
+    fb = 3 if has_addend else 2
+    off = sym = typ = add = 0
+    for o, t, s_, a in relocs:
+        delta = ((o >> shift) - off) & 0xffffffffffffffff
+        b = (delta & ((1 << (7 - fb)) - 1)) << fb | (s_ != sym) | (t != typ) << 1
+        if has_addend and a != add:
+            b |= 4
+        big = delta >> (7 - fb)
+        out.append(b | (0x80 if big else 0))
+        if big:
+            out += enc_uleb(big)
+        if s_ != sym:
+            out += enc_sleb(s_ - sym)
+        if t != typ:
+            out += enc_sleb(t - typ)
+        if has_addend and a != add:
+            out += enc_sleb(a - add)
+        off, sym, typ, add = o >> shift, s_, t, a
+    return bytes(out)
+
+
+def part_c():
+    print('== part (c): unit vectors ==')
+    for v in (0, 1, 127, 128, 300, 624485, (1 << 64) - 1):
+        eq(E.uleb(enc_uleb(v) + b'\xff', 0), (v, len(enc_uleb(v))), 'uleb %d' % v)
+    eq(E.uleb(bytes.fromhex('e58e26'), 0)[0], 624485, 'uleb DWARF example')
+    eq(E.sleb(bytes.fromhex('c0bb78'), 0)[0], -123456, 'sleb DWARF example')
+    for v in (0, 1, -1, 63, 64, -64, -65, 1 << 40, -(1 << 62)):
+        eq(E.sleb(enc_sleb(v) + b'\x00', 0), (v, len(enc_sleb(v))), 'sleb %d' % v)
+    # RELR: address, bitmap, bitmap continuation (63 words each), new address
+    raw = [0x1000, (0b1011 << 1) | 1, (1 << 63) | 1, 0x9000, 3]
+    exp = [0x1000, 0x1008, 0x1010, 0x1020, 0x1008 + 63 * 8 + 62 * 8, 0x9000, 0x9008]
+    eq(E.decode_relr(raw), exp, 'decode_relr vector')
+    try:
+        E.decode_relr([3])
+        check(False, 'RELR starting with a bitmap must raise')
+    except E.ElfError:
+        check(True, '')
+    # CREL round trips, with and without addends, shifts 0..3
+    n = 0
+    for has_addend in (False, True):
+        for shift in range(4):
+            relocs = [(0x10 << shift, 2, 1, -4 if has_addend else None),
+                      (0x14 << shift, 2, 1, -4 if has_addend else None),
+                      (0x1000 << shift, 4, 70000, 0 if has_addend else None),
+                      (0x1001 << shift, 42, 3, (1 << 40) if has_addend else None),
+                      ((1 << 40) << shift, 1, 2, -(1 << 50) if has_addend else None)]
+            eq(E.decode_crel(enc_crel(relocs, has_addend, shift)), relocs,
+               'CREL round trip addend=%s shift=%d' % (has_addend, shift))
+            n += 1
+    eq(E.decode_crel(bytes([0x08, 0x04])), [(1, 0, 0, None)], 'CREL minimal vector')
+    # SHT_REL and SHT_CREL sections inside an object
+    o = G.ElfObject('x86_64')
+    t = o.section('.text', flags=6, align=4, data=bytes(32))
+    sym = o.symbol('f', section=t)
+    und = o.symbol('u')
+    o.to_bytes()    # assigns indices
+    o.section('.rel.text', type=G.SHT_REL, flags=G.SHF_INFO_LINK, align=8, entsize=16,
+              link='symtab', info=t, data=struct.pack('<QQQQ', 4, und.index << 32 | 2, 8,
+                                                      sym.index << 32 | 1))
+    o.section('.crel.text', type=E.SHT_CREL, align=1, link='symtab', info=t,
+              data=enc_crel([(12, 2, und.index, -4), (20, 1, sym.index, 7)], True, 0))
+    e = E.Elf(data=o.to_bytes())
+    eq([tuple(r) for r in e.relocations()],
+       [('.rel.text', t.index, 4, 2, und.index, 'u', None),
+        ('.rel.text', t.index, 8, 1, sym.index, 'f', None),
+        ('.crel.text', t.index, 12, 2, und.index, 'u', -4),
+        ('.crel.text', t.index, 20, 1, sym.index, 'f', 7)], 'SHT_REL / SHT_CREL sections')
+    # pointer encodings
+    x = E.Elf(data=o.to_bytes())
+    buf = struct.pack('<hiqHIQ', -2, -3, -4, 5, 6, 7) + enc_uleb(300) + enc_sleb(-300)
+    pos, got = 0, []
+    for enc in (0x0a, 0x0b, 0x0c, 0x02, 0x03, 0x04, 0x01, 0x09):
+        v, pos = x._read_encoded(buf, pos, enc, 0)
+        got.append(v if v < 1 << 63 else v - (1 << 64))
+    eq(got, [-2, -3, -4, 5, 6, 7, 300, -300], 'DW_EH_PE formats')
+    eq(x._read_encoded(struct.pack('<i', -16), 0, 0x1b, 0x1000)[0], 0xff0, 'pcrel|sdata4')
+    eq(x._read_encoded(struct.pack('<i', 16), 0, 0x3b, 0x1000, 0x4000)[0], 0x4010, 'datarel|sdata4')
+    eq(x._read_encoded(struct.pack('<i', 0), 0, 0x1b, 0x1000)[0], 0, 'pcrel of 0 stays 0 (libgcc)')
+    eq(x._read_encoded(b'', 0, 0xff, 0), (None, 0), 'DW_EH_PE_omit')
+    return {'crel_roundtrips': n}
+
+
+def main():
+    shutil.rmtree(WORK, ignore_errors=True)
+    os.makedirs(WORK)
+    try:
+        a = part_a()
+        b = part_b()
+        c = part_c()
+    finally:
+        if not os.environ.get('KEEP'):
+            shutil.rmtree(WORK, ignore_errors=True)
+    print('part (a) totals:', a)
+    print('part (b) totals:', b)
+    print('part (c) totals:', c)
+    print('%d checks, %d failures' % (NCHECKS[0], len(FAILS)))
+    sys.exit(1 if FAILS else 0)
+
+
+if __name__ == '__main__':
+    main()
